@@ -240,6 +240,14 @@ pub fn run(tape: &mut Tape, props: Props, thorough: bool, trace_on: bool) -> Out
         if frags.len() < 2 || frags.len() > 8 {
             continue;
         }
+        // one datagram in five carries an IPv4 option that is copied into every fragment (stream identifier, copied
+        // flag set): the header of each fragment is then 24 octets long
+        if tape.draw(5) == 0 {
+            for f in frags.iter_mut() {
+                f.2 = with_v4_option(&f.2, &[0x88, 4, 0, 7]);
+            }
+            stats.inc("reasm.datagrams-with-an-ipv4-option-in-every-fragment");
+        }
         stats.inc("reasm.datagrams-sent");
         // ---- delivery plan
         let mut order: Vec<usize> = (0..frags.len()).collect();
@@ -422,4 +430,21 @@ pub fn run(tape: &mut Tape, props: Props, thorough: bool, trace_on: bool) -> Out
     let nontrivial = stats.get("reasm.delivered") >= 1 && stats.get("reasm.datagrams-sent") >= 2;
     stats.add("sim.seconds", (now / 1_000_000) as u64);
     Outcome { viol: result.err(), stats, hash, nontrivial, trace, sim_us: now, events, cfg_desc: "reassembly: scripted fragment sender -> one real node (Medium::Ip, IPv4, one reassembly slot)".to_string() }
+}
+
+/// The same IPv4 packet with `opt` (a multiple of four octets) inserted after the fixed header.
+fn with_v4_option(pkt: &[u8], opt: &[u8]) -> Vec<u8> {
+    let mut w = pkt[..20].to_vec();
+    w.extend_from_slice(opt);
+    w.extend_from_slice(&pkt[20..]);
+    w[0] = 0x40 | ((20 + opt.len()) / 4) as u8;
+    let tl = pkt.len() + opt.len();
+    w[2] = (tl >> 8) as u8;
+    w[3] = tl as u8;
+    w[10] = 0;
+    w[11] = 0;
+    let cs = inet_csum(&w[..20 + opt.len()], 0);
+    w[10] = (cs >> 8) as u8;
+    w[11] = cs as u8;
+    w
 }
